@@ -1,17 +1,20 @@
 SPECIFICATION Spec
 CONSTANTS
-  Scenarios <- Scen_A
+  Scenarios <- Scen_all
   Acts <- ActsAll
-  MaxDepth = 1
+  MaxDepth = 0
   MaxFields = 3
   AllowAlias = "guard"
   TransVs <- TransVs_def
-  ScaleFs <- ScaleFs_q
-  RotKs <- RotKs_q
-  RotRefs <- RotRefs_q
-  PadSpecs <- Pad_q
-  Masks <- Masks_q
-  Nums <- Nums_q
+  ScaleFs <- ScaleFs_all
+  RotKs <- RotKs_all
+  RotRefs <- RotRefs_all
+  RotPairs <- RotPairs_all
+  Rich = TRUE
+  LastFresh = FALSE
+  PadSpecs <- Pad_all
+  Masks <- Masks_all
+  Nums <- Nums_all
 CHECK_DEADLOCK FALSE
 INVARIANT DF_RegionNormal
 INVARIANT DF_MeshNormal
